@@ -369,6 +369,11 @@ func c14InProcess(o *cli.Opts, run *evid.Run, self string, ks *keyset) {
 			next = len(plan)
 			break
 		}
+		if ee, ok := werr.(*exec.ExitError); ok && ee.ExitCode() == 4 {
+			// the worker reported a deadlock (AwaitStop never returned) and gave up: the verdict is in, and every
+			// further cycle of that kind would cost a full watchdog period
+			break
+		}
 		// the worker died: a panic (e.g. a listener that could not bind, a channel closed twice) or a deadlock exit
 		stderr, _ := os.ReadFile(errPath)
 		name := "?"
